@@ -66,6 +66,9 @@ def c06(res):
     replay_step(res, "lanews_q", kinds=K_REQ, modes="straddle8")
     replay_step(res, "lanelong_q", kinds=K_REQ, modes="base")
     call_traces(res)
+    for f in ("laneu4_q", "laneu3_q", "unispace"):
+        replay_step(res, f, kinds=K_REQ, modes="base")
+    variant_sweep(res, ["methods", "lane_q"], kinds=K_REQ)
 
 
 def c07(res):
@@ -83,6 +86,9 @@ def c07(res):
     replay_step(res, "lanews_q", kinds=K_RESP, modes="straddle8")
     replay_step(res, "lanelong_q", kinds=K_RESP, modes="base")
     call_traces(res)
+    for f in ("laneu4_q", "laneu3_q", "unispace"):
+        replay_step(res, f, kinds=K_RESP, modes="base")
+    variant_sweep(res, ["reasons", "lane_q"], kinds=K_RESP)
 
 
 def c08(res):
@@ -101,6 +107,9 @@ def c08(res):
     replay_step(res, "lanews_q", kinds=HEADS, modes="straddle8")
     replay_step(res, "lanelong_q", kinds=HEADS, modes="base")
     call_traces(res)
+    for f in ("laneu4_q", "laneu3_q", "unispace"):
+        replay_step(res, f, kinds=HEADS, modes="base")
+    variant_sweep(res, ["lines_q"], kinds=HEADS)
 
 
 def c09(res):
@@ -117,6 +126,7 @@ def c09(res):
     if t == "thorough":
         mc_head(res, "language-chunk-all-bytes", invs=["InvLanguage", "InvFraming"], kinds='{"chunk"}', family="BYTE", follow="{10, 13, 32, 58, 97}", timeout=3000)
     call_traces(res)
+    variant_sweep(res, ["digits", "chunk_q"], kinds=K_CHUNK)
 
 
 def c10(res):
@@ -126,6 +136,8 @@ def c10(res):
         replay_step(res, f, kinds=HEADS, modes="base")
     feed_traces(res, fam(t, 250000, 3000000), kinds="0,1,2")
     call_traces(res)
+    replay_step(res, "unispace", kinds=HEADS, modes="base")
+    variant_sweep(res, ["byte_q"], kinds=HEADS)
 
 
 def c11(res):
@@ -135,6 +147,8 @@ def c11(res):
     for f in fam(t, ["byte_q", "ext_q", "chunk_q", "methods", "versions", "prefaces", "walk_q", "deep_q"], ["byte_t", "ext_t", "chunk_t", "lane_t", "methods", "versions", "prefaces", "walk_t", "deep_t"]):
         replay_step(res, f, modes="completion")
     feed_traces(res, fam(t, 250000, 3000000), kinds="0,1,2,3")
+    replay_step(res, "unispace", modes="completion")
+    variant_sweep(res, ["byte_q"], modes="completion")
 
 
 def c02(res):
@@ -147,6 +161,9 @@ def c02(res):
     feed_traces(res, fam(t, 250000, 3000000), kinds="0,1,2,3")
     replay_step(res, "lanetail_q", modes="straddleall")
     replay_step(res, "lanews_q", modes="straddle8")
+    for f in ("lane8_q", "laneu4_q", "methods", "reasons"):
+        replay_step(res, f, modes="giant")
+    replay_step(res, "unispace", modes="extend")
 
 
 def c03(res):
@@ -157,6 +174,7 @@ def c03(res):
     feed_traces(res, fam(t, 250000, 3000000), kinds="0,1,2,3")
     replay_step(res, "lanetail_q", modes="straddleall")
     replay_step(res, "lanews_q", modes="straddle8")
+    variant_sweep(res, ["lines_q", "dict_q"])
     call_traces(res)
 
 
@@ -170,6 +188,9 @@ def c04(res):
     op_traces(res, fam(t, 3000, 30000))
     replay_step(res, "lanetail_q", kinds=HEADS, modes="straddleall")
     replay_step(res, "lanews_q", kinds=HEADS, modes="straddle8")
+    for f in ("laneu4_q", "unispace"):
+        replay_step(res, f, kinds=HEADS, modes="base")
+    replay_step(res, "lane_q", kinds=HEADS, modes="giant")
 
 
 def c05(res):
@@ -181,6 +202,11 @@ def c05(res):
     replay_step(res, "lanetail_q", kinds=HEADS, modes="straddleall")
     replay_step(res, "lanews_q", kinds=HEADS, modes="straddle8")
     replay_step(res, "lanelong_q", kinds=HEADS, modes="base")
+    for f in ("laneu4_q", "laneu3_q", "unispace"):
+        replay_step(res, f, kinds=HEADS, modes="base")
+    for b in (None, 2, 3):
+        replay_step(res, "lane_q", kinds=HEADS, modes="giant", backend=b)
+    variant_sweep(res, ["lane_q"], kinds=HEADS)
 
 
 def c14(res):
@@ -194,6 +220,8 @@ def c14(res):
         mc_head(res, "language-options-all-bytes", invs=["InvLanguage"], kinds='{"resp"}', family="BYTE", follow="{10}", caps="{100000}", cfgs="{94, 8, 64, 4, 16}", phases=HDR_PHASES, timeout=3000)
     replay_step(res, "lanetail_q", kinds="0,1", modes="straddleall")
     replay_step(res, "lanews_q", kinds="0,1", modes="straddle8")
+    replay_step(res, "unispace", kinds="0,1", modes="base")
+    variant_sweep(res, ["lines_q"], kinds="0,1")
     call_traces(res)
     config_traces(res, fam(t, 4000, 60000))
 
@@ -211,6 +239,7 @@ def c15(res):
     multi(res, ["Conservative"], fam(t, "4", "6"))
     for f in fam(t, ["ext_q", "lines_q", "methods", "versions", "prefaces", "code_q", "reasons", "dict_q"], ["byte_q", "ext_t", "lines_t", "methods", "versions", "prefaces", "code_q", "reasons", "dict_q"]):
         replay_step(res, f, kinds="0,1", modes="cfgs")
+    replay_step(res, "unispace", kinds="0,1", modes="cfgsdone")
     config_traces(res, fam(t, 4000, 60000))
 
 
@@ -335,6 +364,12 @@ def c01(res):
     replay_step(res, "lanetail_q", modes="straddleall")
     replay_step(res, "lanews_q", modes="straddle8,places")
     replay_step(res, "lanelong_q", modes="alignall")
+    for b in (None, 2, 3):
+        replay_step(res, "lane_q", modes="giant", backend=b)
+    for f in ("laneu4_q", "laneu3_q", "unispace"):
+        replay_step(res, f, modes="places")
+    memcheck_step(res, fam(t, ["lanetail_q"], ["lanetail_q", "lane_q", "lane8_q"]))
+    variant_sweep(res, ["lane_q"], modes="places")
     call_traces(res)
 
 
@@ -344,7 +379,32 @@ VARIANTS = {
     "nosimd": {"env": {"CARGO_CFG_HTTPARSE_DISABLE_SIMD": "1"}, "subdir": "nosimd"},
     "noct": {"rustflags": "-C target-feature=+avx2", "env": {"CARGO_CFG_HTTPARSE_DISABLE_SIMD_COMPILETIME": "1"}, "subdir": "noct"},
     "nostd": {"features": "", "subdir": "nostd"},
+    # code-generation switches a user may pass: cfg(target_feature = ..), cfg(panic = ..) arms and
+    # anything build.rs derives from the profile (OPT_LEVEL, DEBUG, PROFILE) are code too
+    "native": {"rustflags": "-C target-cpu=native", "subdir": "native"},
+    "bitmanip": {"rustflags": "-C target-feature=+lzcnt,+bmi1,+bmi2,+popcnt", "subdir": "bitmanip"},
+    "opts": {"env": {"CARGO_PROFILE_RELEASE_OPT_LEVEL": "s"}, "subdir": "opts"},
+    "optz": {"env": {"CARGO_PROFILE_RELEASE_OPT_LEVEL": "z"}, "subdir": "optz"},
+    "pabort": {"env": {"CARGO_PROFILE_RELEASE_PANIC": "abort"}, "subdir": "pabort"},
 }
+SWEEP = ("native", "bitmanip", "opts", "optz", "pabort")
+
+
+def variant_sweep(res, fams, modes="base", kinds=None, names=SWEEP, promote=False):
+    """the property on the code as other code-generation switches build it"""
+    from concurrent.futures import ThreadPoolExecutor
+    def build(n):
+        v = VARIANTS[n]
+        try:
+            build_harness("release", v.get("rustflags", ""), v.get("env"), v.get("subdir"), v.get("features"))
+        except ToolError:
+            pass          # replay_step reports it (C13: violation; elsewhere: tool error)
+    with ThreadPoolExecutor(max_workers=len(names)) as ex:
+        list(ex.map(build, names))
+    for n in names:
+        for f in fams:
+            replay_step(res, f, kinds=kinds, modes=modes, variant=VARIANTS[n], promote=promote)
+
 
 
 def build_matrix(res, profiles=("release",)):
@@ -495,7 +555,11 @@ def c13(res):
         replay_step(res, "lane8_q", modes="places", backend=b, promote=True)
         replay_step(res, lf, modes="places", backend=b, promote=True)
         replay_step(res, "len_q", modes="places", backend=b, profile="dbgchk", promote=True)
-    for name in ["sse42ct", "avx2ct", "nosimd", "noct", "nostd"]:
+    replay_step(res, "lane_q", modes="giant", baseline=True)
+    for b in (2, 3):
+        replay_step(res, "lane_q", modes="giant", backend=b, promote=True)
+    variant_sweep(res, [], names=SWEEP)          # builds the code-generation variants in parallel
+    for name in ["sse42ct", "avx2ct", "nosimd", "noct", "nostd"] + list(SWEEP):
         replay_step(res, lf, modes="places", variant=VARIANTS[name], promote=True)
         replay_step(res, "lane8_q", modes="places", variant=VARIANTS[name], promote=True)
         if t == "thorough":
